@@ -77,9 +77,10 @@ func (dm *DMap) getOnFragment(e *env) (storage.Entry, error) {
 		return nil, err
 	}
 
-	if isKeyExpired(entry.TTL()) {
-		return nil, ErrKeyNotFound
-	}
+	// An expired entry is returned as well. This function answers the owner that collects the
+	// versions of a key from the previous owners and the backups (getOnCluster): the newest version
+	// decides, and it is that version's expiry getOnCluster looks at. Hiding an expired version here
+	// would let an older, superseded version on another member win.
 	return entry, nil
 }
 
